@@ -544,6 +544,131 @@ fn backend_case(kind: Kind, i: u64, seed: u64, out: &mut CaseOut) {
     }
 }
 
+/// Two clients open the object store at the same time while it has no salt yet: every interleaving
+/// of their requests (get salt / compare-and-swap salt / get salt). Whoever loses the creation race
+/// must end up with the stored salt: what either of them writes afterwards must open, in the
+/// reference, with the secret and the *stored* salt, and the other client must be able to read it.
+fn salt_race_case(out: &mut CaseOut) {
+    use crate::exec::{run_sched, DfsSource, Gates};
+    use std::sync::atomic::{AtomicBool, Ordering};
+    use std::sync::Arc;
+    use taskchampion::server::verif::{CloudHandle, GateDecision, GateEvent, GateFn, MemService, MemStore};
+    let replay = json!({"stratum": "salt-race", "index": 0});
+    set_random_source(Some(Box::new(|| Some(255))));
+    let mut dfs = DfsSource::new();
+    let mut runs = 0u64;
+    out.evaluations = 0;
+    loop {
+        dfs.begin_run();
+        runs += 1;
+        out.evaluations += 1;
+        let store = MemStore::new();
+        store.set_clock(1_700_000_000);
+        let gates = Gates::new(2);
+        let open = Arc::new(AtomicBool::new(false));
+        let mk_gate = |gates: Gates, open: Arc<AtomicBool>| -> GateFn {
+            Arc::new(move |ev: GateEvent| {
+                let g = gates.clone();
+                let open = open.clone();
+                Box::pin(async move {
+                    if !open.load(Ordering::SeqCst) {
+                        g.pass(ev.client as usize, format!("{:?}:{}", ev.op, crate::cloud::classify(&ev.name))).await;
+                    }
+                    GateDecision::Proceed
+                })
+            })
+        };
+        let mut futs: Vec<Option<std::pin::Pin<Box<dyn std::future::Future<Output = Result<CloudHandle, taskchampion::Error>>>>>> = vec![];
+        for c in 0..2u32 {
+            let svc = MemService::new(store.clone(), c, Some(mk_gate(gates.clone(), open.clone())), 3);
+            futs.push(Some(Box::pin(CloudHandle::new(svc, crate::cloud::SECRET.to_vec()))));
+        }
+        let o = run_sched(&gates, futs, &mut dfs, 200);
+        open.store(true, Ordering::SeqCst);
+        let mut replay = replay.clone();
+        replay["schedule"] = json!(o.trace.iter().map(|t| format!("{}:{}", t.0, t.1)).collect::<Vec<_>>());
+        let mut hs = vec![];
+        for r in o.results {
+            match r {
+                Some(Ok(h)) => hs.push(h),
+                other => {
+                    out.violate("object-store/salt-race/open-failed".to_string(), format!("{:?}", other.map(|r| r.map(|_| ()).map_err(|e| e.to_string()))), replay);
+                    set_random_source(None);
+                    return;
+                }
+            }
+        }
+        let salt = store.get_raw("salt").map(|s| s.1).unwrap_or_default();
+        // each client writes, the other reads
+        let p0 = b"payload-written-by-client-0".to_vec();
+        let p1 = b"payload-written-by-client-1".to_vec();
+        let v0 = match block_on(hs[0].add_version(Uuid::nil(), p0.clone())) {
+            Ok((AddVersionResult::Ok(v), _)) => v,
+            other => {
+                out.inconclusive = Some(format!("add_version after the race: {:?}", other.map(|r| r.0).map_err(|e| e.to_string())));
+                set_random_source(None);
+                return;
+            }
+        };
+        let read1 = block_on(hs[1].get_child_version(Uuid::nil()));
+        let v1 = match block_on(hs[1].add_version(v0, p1.clone())) {
+            Ok((AddVersionResult::Ok(v), _)) => Some(v),
+            _ => None,
+        };
+        let read0 = v1.map(|_| block_on(hs[0].get_child_version(v0)));
+        for (who, res, want) in [("client 1 reading client 0's version", Some(read1), &p0), ("client 0 reading client 1's version", read0, &p1)] {
+            match res {
+                Some(Ok(GetVersionResult::Version { history_segment, .. })) if &history_segment == want => {}
+                Some(other) => {
+                    out.violate("object-store/salt-race/cannot-read-other-clients-data".to_string(), format!("{who}: {:?}", other.map(|_| "other data").map_err(|e| e.to_string())), replay);
+                    set_random_source(None);
+                    return;
+                }
+                None => {}
+            }
+        }
+        // the reference opens both stored versions with the secret and the *stored* salt
+        let mut queries = vec![];
+        let mut wants = vec![];
+        for (v, parent, plain) in [(Some(v0), Uuid::nil(), &p0), (v1, v0, &p1)] {
+            if let Some(v) = v {
+                if let Some((_, bytes)) = store.get_raw(&crate::cloud::version_name(parent, v)) {
+                    queries.push(json!({"id": queries.len(), "secret": hex(crate::cloud::SECRET), "salt": hex(&salt), "version_id": hex(v.as_bytes()), "sealed": hex(&bytes)}));
+                    wants.push(plain.clone());
+                }
+            }
+        }
+        match oracle(&queries) {
+            Ok(ans) => {
+                for (a, w) in ans.iter().zip(wants.iter()) {
+                    if a["ok"] != json!(true) || a["plain"].as_str().map(unhex).as_deref() != Some(w.as_slice()) {
+                        out.violate("object-store/salt-race/not-sealed-under-stored-salt".to_string(), format!("a version written after the salt-creation race does not open with the secret and the stored salt: {}", a["why"]), replay);
+                        set_random_source(None);
+                        return;
+                    }
+                    out.count("stored_values_opened_by_reference", 1);
+                }
+            }
+            Err(e) => {
+                out.inconclusive = Some(e);
+                set_random_source(None);
+                return;
+            }
+        }
+        out.count("salt_race_schedules", 1);
+        if !dfs.advance() {
+            out.count("salt_race_exhausted", 1);
+            break;
+        }
+        if runs >= 60 {
+            break;
+        }
+    }
+    set_random_source(None);
+    out.nontrivial = Some(fnv(b"salt-race"));
+    out.sample = Some(json!({"salt_race_schedules": runs}));
+}
+
 fn base64_decode(s: &str) -> Vec<u8> {
     let tbl = b"ABCDEFGHIJKLMNOPQRSTUVWXYZabcdefghijklmnopqrstuvwxyz0123456789+/";
     let mut out = vec![];
@@ -584,6 +709,16 @@ pub fn run(ctx: &Ctx) -> Outcome {
             acc.exhaustive_parts.push("format-sweep: for each sealed value of sizes {0,1,15,16,17,1000,random}: every byte position x {^0x01, ^0x80, =0x00, =0xFF}, every truncation length, one appended byte".into());
         }
     }
+    if want("salt-race") {
+        run_cases(&mut acc, "salt-race", 1, |_| {
+            let mut out = CaseOut::new();
+            salt_race_case(&mut out);
+            out
+        });
+        if only.is_none() && acc.counter("salt_race_exhausted") > 0 {
+            acc.exhaustive_parts.push("salt-race: every interleaving of two clients' object-store requests while both open a store that has no salt yet".into());
+        }
+    }
     for kind in [Kind::Http, Kind::Cloud, Kind::GitLocal, Kind::GitRemote] {
         let name = format!("backend-{}", kind.name());
         if !want(&name) {
@@ -605,7 +740,7 @@ pub fn run(ctx: &Ctx) -> Outcome {
     }
     Outcome {
         level: "exploration",
-        rule: "format sweep: random secrets/salts/version ids, payload sizes {0,1,15,16,17,1000,random}; per value: format and nonce checks, reference opens it, crate opens reference-sealed values, exhaustive single-byte tamper (4 patterns per position) + every truncation + extension, mismatch cube (secret, salt, version id, nil id; reference additionally with 100000 iterations and app id 2); backends: versions and a snapshot carrying planted task content written through the HTTP client, the object-store server and the git backend (local-only and with a remote), every stored byte string scanned for the markers, every stored sealed value opened by the reference with the documented salt/AAD and refused under another id, then flip / truncate / swap / relabel of the stored version must not yield data; distinct by case".into(),
+        rule: "format sweep: random secrets/salts/version ids, payload sizes {0,1,15,16,17,1000,random}; per value: format and nonce checks, reference opens it, crate opens reference-sealed values, exhaustive single-byte tamper (4 patterns per position) + every truncation + extension, mismatch cube (secret, salt, version id, nil id; reference additionally with 100000 iterations and app id 2); salt-race: all interleavings of two clients opening a salt-less object store at once, then writing and reading each other's data; backends: versions and a snapshot carrying planted task content written through the HTTP client, the object-store server and the git backend (local-only and with a remote), every stored byte string scanned for the markers, every stored sealed value opened by the reference with the documented salt/AAD and refused under another id, then flip / truncate / swap / relabel of the stored version must not yield data; distinct by case".into(),
         exhaustive: None,
         acc,
         assumptions: vec![
